@@ -114,3 +114,59 @@ def shape(n, rw, dom_sets):
     if any(reach[v] >> v & 1 for v in range(n)):
         return "irreducible"
     return "reducible"
+
+
+# ---------------------------------------------------------------------------------------------------------------
+# structurally defined sub-spaces of larger graphs (C18 quick tier)
+def sparse_rooted(n, max_edges, part=0, nparts=1):
+    """Every rooted digraph on n labelled nodes (entry 0, self-loops allowed) with at most max_edges edges, as edge
+    lists in ascending order.  Enumerated as all subsets of the n*n ordered pairs of size n-1..max_edges."""
+    import itertools as it
+    pairs = [(u, v) for u in range(n) for v in range(n)]
+    full = (1 << n) - 1
+    i = 0
+    for e in range(n - 1, max_edges + 1):
+        for combo in it.combinations(range(n * n), e):
+            i += 1
+            if i % nparts != part:
+                continue
+            rw = [0] * n
+            for c in combo:
+                rw[c // n] |= 1 << (c % n)
+            if not rw[0] & ~1:
+                continue
+            if reach_from(n, rw, 0) == full:
+                yield [pairs[c] for c in combo]
+
+
+def dfs_trees(n):
+    """Every ordered rooted tree on n nodes labelled in depth-first preorder, as a parent list (parent[0] = None):
+    parent[i] must lie on the path root..i-1 (Catalan(n-1) trees)."""
+    def rec(parent):
+        i = len(parent)
+        if i == n:
+            yield list(parent)
+            return
+        p = i - 1
+        while p is not None:
+            yield from rec(parent + [p])
+            p = parent[p]
+    yield from rec([None])
+
+
+def tree_plus(n, max_extra, tree_index=None):
+    """Every graph 'DFS spanning tree + k <= max_extra further edges': for every ordered tree of dfs_trees(n) (or only
+    the tree_index-th), every set of at most max_extra ordered pairs that are not tree edges (self-loops, back,
+    forward and cross pairs alike).  Edge lists: tree edges first (children in preorder), then the extra edges in
+    ascending order -- the insertion order a depth-first search of the tree itself would meet them in.
+    Yields (edges, number of extra edges)."""
+    import itertools as it
+    for ti, parent in enumerate(dfs_trees(n)):
+        if tree_index is not None and ti != tree_index:
+            continue
+        tree = [(parent[i], i) for i in range(1, n)]
+        tset = set(tree)
+        others = [(u, v) for u in range(n) for v in range(n) if (u, v) not in tset]
+        for k in range(0, max_extra + 1):
+            for extra in it.combinations(others, k):
+                yield tree + list(extra), k
